@@ -20,9 +20,11 @@ func c02Tasks(tier string) []Task {
 		ts = append(ts, Task{Pkg: dm, Func: "VerifC02HighLevel", Args: a[:], Timeout: 300, Note: "Base-256 run of 248 / 504 characters + free character + tail"})
 	}
 	// X12 with an incomplete triplet pending when a free character arrives
-	x12 := [][4]int64{{11, 1, 4, 0}, {11, 0, 4, 0}}
+	x12 := [][4]int64{{11, 0, 4, 0}}
 	if tier == "thorough" {
-		x12 = append(x12, [4]int64{12, 1, 4, 0}, [4]int64{11, 1, 0, 0})
+		// (11,1,4,0) is the task that exposed the swallowed X12 error; ~7 minutes, so not in the quick tier
+		// (the quick tier still runs its confirmation variant for the open finding)
+		x12 = append(x12, [4]int64{11, 1, 4, 0}, [4]int64{12, 1, 4, 0}, [4]int64{11, 1, 0, 0})
 	}
 	for _, a := range x12 {
 		ts = append(ts, Task{Pkg: dm, Func: "VerifC02HighLevel", Args: a[:], Timeout: 300, Note: "X12 prefix with 2 / 1 characters of a triplet pending + free character + X12 tail"})
